@@ -213,7 +213,7 @@ def run(ctx):
     for sp in specs[:3]:
         ctx.sample({"kind": sp[0], "class": sp[3][0], "value": sp[2] if len(str(sp[2])) < 1500 else str(sp[2])[:1500]})
     ctx.assumptions += ["values equal by bit pattern of every double and byte of every string",
-                        "std::bad_alloc for a single allocation above 256 MiB is a legal rejection",
+                        "std::bad_alloc for a single allocation above 128 MiB is a legal rejection",
                         "ASan+UBSan+_GLIBCXX_ASSERTIONS build; a sanitizer report during encode/decode is a violation"]
     codec_run.run_items("san", specs, lambda sp, r, c: judge_item(ctx, sp, r, c), batch=60)
     if len(ctx.extra.get("by_kind", {})) != 11:
